@@ -212,6 +212,14 @@ def Commissioning(available_addresses=None, readdress=False,
             if low == "clash":
                 yield progress(message="Multiple ballasts picked the same "
                                "random address; restarting")
+                if not dry_run:
+                    # Withdrawn gear still reacts to Randomise and
+                    # ProgramShortAddress.  Take the gear that has
+                    # already been given an address out of
+                    # initialisation so that it cannot pick up a
+                    # second address in the next round.
+                    yield Terminate()
+                    yield Initialise(broadcast=False, address=None)
                 break
             if low is None:
                 finished = True
